@@ -78,6 +78,8 @@ pub fn naive_max_ts() -> (r: i64) ensures r == sp_naive_max() { unimplemented!()
 #[verifier::external_body]
 pub fn naive_min_ts() -> (r: i64) ensures r == sp_naive_min() { unimplemented!() }
 
+fn max(a: u64, b: u64) -> (r: u64) ensures r == (if a >= b { a } else { b }) { if a >= b { a } else { b } }
+fn min(a: u64, b: u64) -> (r: u64) ensures r == (if a <= b { a } else { b }) { if a <= b { a } else { b } }
 #[derive(Clone, Copy)]
 pub struct Difficulty { pub num: u64 }
 #[derive(Clone, Copy)]
